@@ -1,7 +1,9 @@
 //! Runtime-monitoring harness for jplatte/eyeball (see /verif/DESIGN.md).
 
 pub mod common;
+pub mod engine_adp;
 pub mod engine_vec;
+pub mod runners_adp;
 pub mod runners_vec;
 pub mod vops;
 
